@@ -111,7 +111,7 @@ def pre_auto(sc: int, kind: int, s: str) -> bool:
     return in_shard(sc)
 
 
-@harness(pre=pre_auto, quick=dict(L=1, timeout=60), thorough=dict(L=3, timeout=900),
+@harness(pre=pre_auto, quick=dict(L=1, timeout=120, reach_timeout=90), thorough=dict(L=2, timeout=900, reach_timeout=90),
          nshards=dict(quick=len(SC), thorough=len(SC)),
          reach=["markup_value_escaped", "bytes_value", "object_value", "include_scoped", "extends_scoped"],
          units=["template._Expression.generate", "template._CodeWriter.include", "template._NamedBlock.generate",
@@ -130,6 +130,9 @@ def pre_auto(sc: int, kind: int, s: str) -> bool:
 def h_auto(sc: int, kind: int, s: str):
     """every expression tag emits exactly F(value) for the autoescape F of the file it is written in."""
     lauto, tauto, files, want_fn = SC[sc]
+    hit_markup = sc == 0 and kind == 0 and s == "<"      # decided before the real call (twin finds them)
+    hit_bytes = sc == 0 and kind == 1 and s == "\xe9"
+    hit_obj = sc == 0 and kind == 2 and s == "&"
     v = s if kind == 0 else s.encode("utf-8") if kind == 1 else _Obj(s)
     main = list(files)[0]
     ns = {"wrap": _wrap, "myesc": _myesc}
@@ -143,11 +146,13 @@ def h_auto(sc: int, kind: int, s: str):
             loader = T.DictLoader(files, namespace=ns, autoescape=lauto)
         out = loader.load(main).generate(v=v)
     want = want_fn(s).encode("utf-8")
-    if sc == 0 and s == "<":
+    if hit_markup:
+        assert out == b"&lt;"
         reached("markup_value_escaped")
-    if sc == 0 and kind == 1 and len(s) > 0:
+    if hit_bytes:
         reached("bytes_value")
-    if sc == 0 and kind == 2 and s == "&":
+    if hit_obj:
+        assert out == b"&amp;"
         reached("object_value")
     if sc == 8:
         reached("include_scoped")
